@@ -1,10 +1,24 @@
 package main
 
+import (
+	"path/filepath"
+	"reflect"
+	"runtime"
+	"strings"
+)
+
 // extraFactFns: per-property constant extractors register themselves here from facts_cxx.go files (init()).
 var extraFactFns []func(fc *facts)
 
 func extraFacts(fc *facts) {
 	for _, f := range extraFactFns {
+		// group = the source file of the extractor (facts_c17.go -> "facts_c17")
+		curGroup = "extra"
+		if fn := runtime.FuncForPC(reflect.ValueOf(f).Pointer()); fn != nil {
+			file, _ := fn.FileLine(fn.Entry())
+			curGroup = strings.TrimSuffix(filepath.Base(file), ".go")
+		}
 		f(fc)
 	}
+	curGroup = "core"
 }
